@@ -44,6 +44,7 @@ ApplyStim ==
            [] e.k = "fault"     -> Fault(e.e)
            [] e.k = "point"     -> RelPoint(e.t)
            [] e.k = "relu"      -> RelU(e.t)
+           [] e.k = "relm"      -> RelM(e.t)
            [] e.k = "reset"     -> Reset
     /\ ph' = "run" /\ l' = l
 
